@@ -1,4 +1,5 @@
 import JL.Generated.Fns
+import JL.Lemmas.TieAuto
 import JL.Tie.to_primitive_number
 import JL.Tie.to_string
 /-! tie: `abstract_plus`, as translated from the crate's current source, is the model's function - for every input -/
@@ -6,9 +7,7 @@ namespace JL.Tie
 open JL
 
 theorem abstract_plus (a b : Json) : Gen.abstract_plus a b = JsOp.abstractPlus a b := by
-  unfold Gen.abstract_plus JsOp.abstractPlus
-  simp only [to_primitive_number, to_string]
-  cases JsOp.toPrimitiveNumber a <;> cases JsOp.toPrimitiveNumber b <;> simp [rs]
-  all_goals (first | (split <;> simp_all) | skip)
+  tie_close [Gen.abstract_plus, JsOp.abstractPlus, to_primitive_number, to_string]
+    splitting JsOp.toPrimitiveNumber Num.ofF64?
 
 end JL.Tie
